@@ -37,6 +37,14 @@ def streams(rng, tier, ctx):
                 if ep == "A" and sim.tick < 70 and r.chance(1, 2):
                     for _ in range(r.range(1, 4)):
                         sim.send("A", r.below(4), r.pick([0, 0, 1, 1, 2, 3]), r.pick([10, 100, F, F + 1, 3 * F + 5, 5 * F, r.range(8, 8000)]))
+            if i % 6 == 5:
+                # a TimeSensitive packet as the LAST thing queued behind packets that use up the flush credit: nothing is left in
+                # the send queue at the next step(), and credit returns later
+                def tr(sim, ep, state={"n": 0}):
+                    if ep == "A" and sim.tick in (1, 9, 20, 33):
+                        for _ in range(r.range(1, 3)):
+                            sim.send("A", r.below(4), r.pick([3, 1, 2]), r.pick([F, 1400, 2 * F]))
+                        sim.send("A", r.below(4), 0, r.pick([10, 100, F + 1, 3 * F]))
             sim.run(r.range(40, 120), dt, netA, netB, tr, probe_every=1)
             sim.meta = {"cfg": cfg}
             H.finish(sim, drain=True, max_ticks=200)
